@@ -20,7 +20,7 @@ PROFILES = {
     'tree': dict(DEFAULT_PROFILE, rp_create=30, rp_update=35, rp_delete=14, alloc_put=6, alloc_post=2, reshape=2,
                  inv_set=4, names=1),
     'integrity': dict(DEFAULT_PROFILE, rp_delete=10, inv_delete=8, inv_delete_all=5, names=12, traits_set=8,
-                      alloc_delete=8),
+                      alloc_delete=8, alloc_post=16, reshape=10),
     'consumers': dict(DEFAULT_PROFILE, alloc_put=30, alloc_post=18, alloc_delete=10, reshape=10, names=1),
 }
 
@@ -66,8 +66,16 @@ def gen_inv(rng, rc=None):
 
 
 def gen_allocs(rng, st, maxrp=3, allow_empty=False):
-    if allow_empty and rng.random() < 0.15:
+    if allow_empty and rng.random() < 0.12:
         return []
+    if rng.random() < 0.7:
+        # valid by construction: claims that fit right now on one or two providers
+        good = [u for u in st.rps if valid_claim(rng, st, u)]
+        if good:
+            out = []
+            for u in rng.sample(good, min(len(good), rng.choice([1, 1, 2]))):
+                out.append((u, valid_claim(rng, st, u)))
+            return out
     rps = list(st.rps) or [1]
     out = []
     for u in rng.sample(range(1, N_RP + 1), rng.randint(1, maxrp)):
@@ -107,6 +115,105 @@ def gen_cons(rng, st, v, allow_empty):
         d['proj'] = None
         d['user'] = None
     return d
+
+
+def joint_claim(rng, st, cs, avoid=()):
+    """Targeted: make two consumers of one request claim the same (provider, class) so that each amount
+    fits into the free capacity alone but their sum does not (the running-sum path of the capacity check);
+    everything else about the two consumers is made valid so that the capacity check decides."""
+    if len(cs) < 2 or rng.random() < 0.4:
+        return
+    mine = {c['uuid'] for c in cs[:2]}
+    cands = []
+    for u, d in st.invs.items():
+        if u in avoid:
+            continue
+        for rc, inv in d.items():
+            cap = int((inv[2] - inv[3]) * (inv[7] * 2.0 ** inv[8]))
+            rcid = st.rcid.get(rc, rc)
+            used_others = sum(a[3] for a in st.allocs if a[1] == u and a[2] == rcid and a[0] not in mine)
+            free = cap - used_others
+            step, lo, hi = max(1, inv[6]), inv[4], min(inv[5], free)
+            amts = [x for x in range(step, hi + 1, step) if x >= lo]
+            pairs = [(x, y) for x in amts for y in amts if x + y > free]
+            if pairs:
+                cands.append((u, rc, pairs))
+    if not cands:
+        return
+    u, rc, pairs = rng.choice(cands)
+    a1, a2 = rng.choice(pairs)
+    for c, amt in zip(cs[:2], (a1, a2)):
+        c['allocs'] = [(u, [(rc, amt)])]
+        known = st.cons.get(c['uuid'])
+        if c.get('gen') is not None or known is not None:
+            c['gen'] = known[4] if known is not None else None
+    for c in cs[2:]:
+        c['allocs'] = [(uu, res) for uu, res in c['allocs'] if uu != u]
+    cs[:] = [c for c in cs[:2]] + [c for c in cs[2:] if c['allocs']]
+
+
+def valid_claim(rng, st, u):
+    """[(rc, amount)] that fits provider u right now, or None"""
+    for rc, inv in sorted(st.invs.get(u, {}).items()):
+        cap = int((inv[2] - inv[3]) * (inv[7] * 2.0 ** inv[8]))
+        free = cap - st.used(u, rc)
+        step, lo, hi = max(1, inv[6]), inv[4], min(inv[5], free)
+        amts = [x for x in range(step, hi + 1, step) if x >= lo]
+        if amts:
+            return [(rc, rng.choice(amts[:3]))]
+    return None
+
+
+def conflict_tail(rng, st, cs, v):
+    """Targeted: a multi-consumer request whose leading consumers are fine (existing ones carrying their
+    right generation, holding allocations) and whose LAST consumer has a generation conflict."""
+    if v < 28 or rng.random() < 0.75:
+        return
+    holders = [c for c in st.cons if any(a[0] == c for a in st.allocs)]
+    rps = [u for u in st.rps if valid_claim(rng, st, u)]
+    if not holders or not rps:
+        return
+    lead = rng.choice(holders)
+    tail = rng.choice([c for c in range(1, N_CONS + 1) if c != lead])
+    known = st.cons.get(tail)
+    bad_gen = (known[4] + 1) if known is not None else 0
+    u = rng.choice(rps)
+    mk = lambda c, g, al: {'uuid': c, 'allocs': al, 'proj': st.cons[lead][1] if c == lead else 1,   # noqa: E731
+                           'user': st.cons[lead][2] if c == lead else 1, 'gen': g,
+                           'type': (rng.randint(1, 2) if v >= 38 else None)}
+    keep = [(a[1], [(st_rcname(st, a[2]), a[3])]) for a in st.allocs if a[0] == lead][:1]
+    cs[:] = [mk(lead, st.cons[lead][4], keep or [(u, valid_claim(rng, st, u))]),
+             mk(tail, bad_gen, [(u, valid_claim(rng, st, u))])]
+
+
+def st_rcname(st, rcid):
+    for n, i in st.rcid.items():
+        if i == rcid:
+            return n
+    return rcid
+
+
+def drop_in_use(rng, st, ri, cs, v):
+    """Targeted: a reshape whose allocations pass against the interim inventory but whose final inventory
+    replacement drops a class the request itself allocates (rejected at the very last step)."""
+    if rng.random() < 0.8:
+        return
+    cands = [u for u in st.rps if valid_claim(rng, st, u) and len(st.invs.get(u, {})) >= 1]
+    if not cands:
+        return
+    u = rng.choice(cands)
+    claim = valid_claim(rng, st, u)
+    rc = claim[0][0]
+    keep = [r for r in st.invs[u] if r != rc]
+    def inv_of(row, r):     # noqa: E306
+        return {'rc': r, 'total': row[2], 'reserved': row[3], 'min': row[4], 'max': row[5], 'step': row[6],
+                'ratio': row[7] * 2.0 ** row[8], '_omit': ()}
+    ri[:] = [(u, st.gen_of(u), [inv_of(st.invs[u][r], r) for r in keep])]
+    free_c = [c for c in range(1, N_CONS + 1) if c not in st.cons]
+    if not free_c:
+        return
+    cs[:] = [{'uuid': rng.choice(free_c), 'allocs': [(u, claim)], 'proj': 1, 'user': 1, 'gen': None,
+              'type': 1 if v >= 38 else None}]
 
 
 def gen_op(rng, dump, profile='default'):
@@ -202,6 +309,8 @@ def gen_op(rng, dump, profile='default'):
             c = gen_cons(rng, st, max(v, 8), True)
             if all(c['uuid'] != x['uuid'] for x in cs):
                 cs.append(c)
+        joint_claim(rng, st, cs)
+        conflict_tail(rng, st, cs, v)
         return ('alloc_post', v, cs)
     if kind == 'alloc_delete':
         return ('alloc_delete', rng.randint(1, N_CONS))
@@ -224,4 +333,8 @@ def gen_op(rng, dump, profile='default'):
         c = gen_cons(rng, st, max(v, 28), True)
         if all(c['uuid'] != x['uuid'] for x in cs):
             cs.append(c)
+    if not ri or all(l for u, g, l in ri):
+        joint_claim(rng, st, cs, avoid=[u for u, g, l in ri])
+    conflict_tail(rng, st, cs, max(v, 28))
+    drop_in_use(rng, st, ri, cs, v)
     return ('reshape', v, ri, cs)
